@@ -9,5 +9,8 @@ MCDocOf ==
                          D("component", <<"C">>, "p1"), [t |-> "close"], D("extern", <<"X">>, "p0") >>
        [] d = "D2" -> << D("interface", <<"I">>, "p0"), [t |-> "open", ids |-> <<"A">>], D("enum", <<"E">>, "p1"),
                          [t |-> "close"], D("import", <<"M">>, "p0") >>
-       [] d = "Bad" -> << D("extern", <<"X">>, "p1"), [t |-> "broken"], D("enum", <<"E">>, "p0") >> ]
+       \* the refused element sits inside nested namespaces, after a good declaration: a parse that gives up there
+       \* must leave nothing behind in the instance
+       [] d = "Bad" -> << D("extern", <<"X">>, "p1"), [t |-> "open", ids |-> <<"Z">>], [t |-> "open", ids |-> <<"Y", "W">>],
+                          D("enum", <<"E">>, "p0"), [t |-> "broken"], [t |-> "close"], [t |-> "close"] >> ]
 =============================================================================
